@@ -924,6 +924,7 @@ Proof.
   - apply sync_remove_ca; auto.
   - auto.
   - apply sync_restart.
+  - apply deliver_sync; auto.
 Qed.
 
 Theorem sync_run os : forall st st', Sync st -> run st os = Some st' -> Sync st'.
@@ -1012,7 +1013,7 @@ Lemma parent_frame st o st' ca p :
   Sync st -> good ca -> good p -> step st o = Some st' -> touches_parent ca p o = false ->
   view_parent st' ca p = view_parent st ca p.
 Proof.
-  intros HS Hca Hp. destruct o as [ca' w lr dr|ca' p' pc ch r|ca' c|ca' p'|ca' c|ca' p' pc ch revs|ca'|ca'|]; simpl; intros H Ht.
+  intros HS Hca Hp. destruct o as [ca' w lr dr|ca' p' pc ch r|ca' c|ca' p'|ca' c|ca' p' pc ch revs|ca'|ca'| |pc0 ch0 m0]; simpl; intros H Ht.
   - inv H. unfold repo_sync, set_repo_failure, set_repo_success, set_repo_published.
     destruct lr as [srv|e]; [destruct (diff w srv); [|destruct dr]|]; simpl; rewrite !view_parent_update_repo; auto.
   - inv H. apply parent_sync_frame; auto.
@@ -1025,13 +1026,14 @@ Proof.
   - inv H. unfold view_parent. rewrite ca_view_remove_ca, Ht. auto.
   - inv H. auto.
   - inv H. apply restart_preserves; auto.
+  - inv H. apply deliver_view_parent.
 Qed.
 
 Lemma repo_frame st o st' ca :
   Sync st -> good ca -> step st o = Some st' -> touches_repo ca o = false ->
   view_repo st' ca = view_repo st ca.
 Proof.
-  intros HS Hca. destruct o as [ca' w lr dr|ca' p' pc ch r|ca' c|ca' p'|ca' c|ca' p' pc ch revs|ca'|ca'|]; simpl; intros H Ht.
+  intros HS Hca. destruct o as [ca' w lr dr|ca' p' pc ch r|ca' c|ca' p'|ca' c|ca' p' pc ch revs|ca'|ca'| |pc0 ch0 m0]; simpl; intros H Ht.
   - inv H. unfold repo_sync, set_repo_failure, set_repo_success, set_repo_published.
     destruct lr as [srv|e]; [destruct (diff w srv); [|destruct dr]|]; simpl; rewrite !view_repo_update_repo, ?Ht; auto.
   - inv H. unfold parent_sync, set_parent_failure, set_parent_entitlements, set_parent_last_updated.
@@ -1052,6 +1054,7 @@ Proof.
   - inv H. unfold view_repo. rewrite ca_view_remove_ca, Ht. auto.
   - inv H. auto.
   - inv H. apply restart_preserves; auto.
+  - inv H. apply deliver_view_repo.
 Qed.
 
 Lemma frame_run {A} (view : state -> A) (touch : op -> bool) :
@@ -1132,7 +1135,7 @@ Lemma child_frame st o st' pc ch :
   Sync st -> good pc -> good ch -> step st o = Some st' -> touches_child pc ch o = false ->
   view_child st' pc ch = view_child st pc ch.
 Proof.
-  intros HS Hca Hp. destruct o as [ca' w lr dr|ca' p' pc' ch' r|ca' c|ca' p'|ca' c|ca' p' pc' ch' revs|ca'|ca'|]; simpl; intros H Ht.
+  intros HS Hca Hp. destruct o as [ca' w lr dr|ca' p' pc' ch' r|ca' c|ca' p'|ca' c|ca' p' pc' ch' revs|ca'|ca'| |pc0 ch0 m0]; simpl; intros H Ht.
   - inv H. unfold repo_sync, set_repo_failure, set_repo_success, set_repo_published.
     destruct lr as [srv|e]; [destruct (diff w srv); [|destruct dr]|]; simpl; rewrite !view_child_update_repo; auto.
   - inv H. apply parent_sync_child_frame; auto.
@@ -1146,6 +1149,7 @@ Proof.
   - inv H. unfold view_child. rewrite ca_view_remove_ca, Ht. auto.
   - inv H. auto.
   - inv H. apply restart_preserves; auto.
+  - inv H. apply deliver_view_child_other. apply pair_neq_of_eqb; auto.
 Qed.
 
 Theorem child_status_is_last_request_in_histories os1 os2 st1 st2 st3 ca p pc ch r x :
@@ -1167,6 +1171,19 @@ Proof.
   pose proof (child_status_is_last_request _ _ _ _ _ _ _ _ _ E Hx) as L.
   unfold child_last in *. rewrite V. auto.
 Qed.
+
+(** A request that arrives on its own: the entry shows its outcome, and whatever the outcome, a processed request
+    clears the suspension marker (api/ca.rs set_success / set_failure). *)
+Theorem child_message_recorded st pc ch m x :
+  recorded m = Some x ->
+  exists cs, view_child (deliver st pc ch m) pc ch = Some cs /\ c_last cs = Some x /\ c_susp cs = false.
+Proof.
+  destruct m; simpl; intros H; inv H; unfold set_child_failure, set_child_success;
+    rewrite view_child_update_child, !str_eqb_refl; simpl; eexists; (split; [reflexivity|simpl; auto]).
+Qed.
+
+Theorem child_message_refused_changes_nothing st pc ch e : deliver st pc ch (MRefused e) = st.
+Proof. reflexivity. Qed.
 
 (** * Non-vacuity: concrete states meeting the hypotheses of the theorems above *)
 Definition nv_b : str := q "b_2".
